@@ -51,6 +51,10 @@ public:
 \defgroup Threading Threading
 */
 
+#ifdef ASL_VERIF
+extern "C" void asl_verif_sched_point(const char* name); // verification hook: named schedule point, may delay the calling thread
+#endif
+
 namespace asl {
 
 class ThreadAttrib;
@@ -147,6 +151,9 @@ private:
 	{
 		Thread* t = (Thread*)p;
 		t->run();
+#ifdef ASL_VERIF
+		asl_verif_sched_point("Thread::begin:after-run");
+#endif
 		t->_threadFinished = true;
 		return 0;
 	}
